@@ -17,6 +17,7 @@ Definition ref_truthy (v : value) : bool :=
   | VStr s => negb (String.eqb s "")
   | VArr l => match l with [] => false | _ => true end
   | VObj _ | VCls _ => true
+  | VNil => false             (* the result of a call that returns nothing counts as null *)
   end.
 
 (* ---- the documented domain D on which exact results are defined *)
@@ -158,14 +159,5 @@ Definition eq_sym_known (a b : ty) : bool :=
   | TBool, TArr | TArr, TBool | TBool, TObj | TObj, TBool | TBool, TCls | TCls, TBool
   | TInt, TStr | TStr, TInt | TFloat, TStr | TStr, TFloat
   | TStr, TArr | TArr, TStr | TStr, TObj | TObj, TStr | TStr, TCls | TCls, TStr => true
-  | _, _ => false
-  end.
-Definition cmp_known (a b : ty) : bool :=
-  match a, b with
-  | TNull, TNull => false
-  | TNull, _ | _, TNull => true
-  | TFloat, TStr => true
-  | TStr, TStr => false
-  | TStr, _ => true
   | _, _ => false
   end.
